@@ -11,21 +11,25 @@ import time
 import vlib
 from vlib import ToolError, log
 
-FAMILIES_QUICK = [("prim", 1), ("object", 1), ("tuple", 1), ("union", 1), ("tpl", 1), ("nonjson", 1), ("format", 1)]
-FAMILIES_THOROUGH = [("prim", 2), ("object", 2), ("tuple", 2), ("union", 2), ("tpl", 2), ("nonjson", 2), ("format", 2)]
+FAMILIES_QUICK = [("prim", 1), ("object", 1), ("tuple", 1), ("union", 1), ("tpl", 1), ("nonjson", 1), ("format", 1), ("util", 1)]
+FAMILIES_THOROUGH = [("prim", 2), ("object", 2), ("tuple", 2), ("union", 2), ("tpl", 2), ("nonjson", 2), ("format", 2), ("util", 2)]
 
 
 def generate(families, tag):
-    """Run TypeGen per family; return (cases, tlc stats)."""
+    """Run TypeGen (or TypeGenU for the "util" family) per family; return (cases, tlc stats)."""
     cases = []
     stats = {"states": 0, "distinct": 0, "families": {}}
     d = os.path.join(vlib.WORK, tag)
     os.makedirs(d, exist_ok=True)
     for fam, depth in families:
         cfg = os.path.join(d, f"MC_Gen_{fam}.cfg")
-        vlib.write_cfg(cfg, spec="Spec", constants={"Family": json.dumps(fam), "MaxDepth": depth},
-                       invariants=["OracleLaws", "EmitInv"])
-        r = vlib.run_tlc(cfg, os.path.join(vlib.VERIF, "spec/mc/MC_Gen.tla"), workers=8, heap="8g", tag=f"gen-{fam}")
+        if fam == "util":
+            vlib.write_cfg(cfg, spec="USpec", constants={"MaxDepth": depth}, invariants=["EmitInv"])
+            r = vlib.run_tlc(cfg, os.path.join(vlib.VERIF, "spec/mc/MC_GenU.tla"), workers=8, heap="8g", tag=f"gen-{fam}", timeout=3000)
+        else:
+            vlib.write_cfg(cfg, spec="Spec", constants={"Family": json.dumps(fam), "MaxDepth": depth},
+                           invariants=["OracleLaws", "EmitInv"])
+            r = vlib.run_tlc(cfg, os.path.join(vlib.VERIF, "spec/mc/MC_Gen.tla"), workers=8, heap="8g", tag=f"gen-{fam}", timeout=3000)
         if r["violated"] or not r["ok"]:
             raise ToolError(f"generator TLC run failed for family {fam}:\n{r['tail']}")
         cs = vlib.tagged_lines(r["lines"], "CASE")
@@ -61,7 +65,8 @@ def observe(cases, tag, ops=("validate",)):
     recs = []
     for i, c in enumerate(cases):
         r = c["_comp"]
-        rec = {"ev": "prog", "id": i, "ty": c["ty"], "env": c["env"], "outcome": r["outcome"], "load": "none", "obs": []}
+        # the trace carries the type-level evaluation (TsEval!Ev) for programs that use type operators
+        rec = {"ev": "prog", "id": i, "ty": c.get("nty", c["ty"]), "env": c.get("nenv", c["env"]), "outcome": r["outcome"], "load": "none", "obs": []}
         if r["outcome"] == "code":
             o = obs.get(i)
             if o is None:
@@ -174,6 +179,7 @@ def run(prop, tier):
         "generator_states": gstats["distinct"], "trace_states": tstates, "programs": len(cases),
         "families": gstats["families"], "verdicts_compared": nprobe,
         "verdicts_expected_accept": accept, "verdicts_contested": contested,
+        "programs_declined_with_diagnostics": sum(1 for r in recs if r["outcome"] == "diags"),
         "known_findings_hit": sorted({k for k, _ in known_hits}), "known_finding_observations": len(known_hits),
         "binding_selftest": neg, "exhaustive": True,
         "rule": "TLC breadth-first over TypeGen per family up to MaxDepth (every reachable program); probes are "
